@@ -5,9 +5,9 @@
 EXTENDS XmlFormat, XmlCorpus
 VARIABLES v, style, enc, bom
 vars == <<v, style, enc, bom>>
-XStyles == [indent : {0, 2, -1}, ref : {0, 1}, quote : {34, 39}, empty : {0, 1}, decl : {0, 1, 2}]
+XStyles == [indent : {0, 2, -1}, ref : {0, 1}, quote : {34, 39}, empty : {0, 1}, decl : {0, 1, 2}, cdata : {0, 1}]
 Encs == {"utf8", "utf16le", "utf16be", "utf32le", "utf32be"}
-Init == v \in XDocs /\ style = [indent |-> 0, ref |-> 0, quote |-> 34, empty |-> 0, decl |-> 1] /\ enc = "utf8" /\ bom = FALSE
+Init == v \in XDocs /\ style = [indent |-> 0, ref |-> 0, quote |-> 34, empty |-> 0, decl |-> 1, cdata |-> 0] /\ enc = "utf8" /\ bom = FALSE
 Next == /\ \E s \in XStyles, e \in Encs, b \in BOOLEAN : style' = s /\ enc' = e /\ bom' = b
         /\ UNCHANGED v
 Spec == Init /\ [][Next]_vars
